@@ -20,6 +20,8 @@ CFG = {
         "eq false after one-element difference": r"^eq .*=> false",
     },
     "gaps": ["producer table (each producer returns a well-formed value): 32-bit — every mutator and history (C01_step/C01_history, used by C04_histories32), all binary operations (C02_all_forms), multi-ops (C09), from_lsb0_bytes (C17), both decoders on conformant input (C06) and the checked decoder on any accepted input (C13_32); 64-bit — mutators and histories (C10_step/C10_history, used by C04_histories64), from_bitmaps (C10_fromBitmaps), all binary operations (C11_all_forms), multi-ops (C11_multi), decoders (C06_t, C13_64)",
+             "64-bit ==: mod.rs derive(PartialEq) over the BTreeMap is Treemap.eq (same length, pairwise equal keys and Bitmap.eq values - mirrored, notes/fidelity-treemap.md); C04_eq_iff_elems64 / C10_eq_iff prove it extensional for TWF treemaps",
+             "fidelity audit (notes/fidelity-bitmap-core.md): `==` is now executed by the driver as Bitmap.eqMirror (RoaringModel/Mirror32.lean): Store::eq compares two bitsets through the cached len and the zipped value iterators (store/mod.rs:524-527), not word by word; Bitmap.eq_mirror_eq proves it equal to Bitmap.eq on stores satisfying their invariant (provided by Bitmap.WF) and C04_eqMirror_iff_elems restates the extensionality theorem for it; producer row full() added (C04_producer_full; never executed: 2^32 elements). The derived PartialEq of Container / Vec<Container> is modelled by contract (length + element-wise)",
              "clone/clone_from are the identity in the model (std Clone / Vec::clone_from / BTreeMap::clone_from trusted); exercised by the clone_from / tclone_from ops"],
     "level_text": "Canonical-form theorem (Lean 4, kernel-checked): two well-formed model values with the same elements are identical, hence `==`, serialized bytes and serialized_size agree for every pair of histories whose producers are proved to return well-formed values; producers without a theorem yet and the tie to the Rust code are covered by producer x producer differential runs.",
     "level_note": "Trusted: Lean kernel; model mirrors code (checked on generated cases only); `Bitmap.eq` as the model of the derived PartialEq/Store::eq; clone/clone_from are identity in the model (std Clone trusted).",
